@@ -18,7 +18,13 @@
     reply is ErrHashNotFound to a Commit of the nil hash sent through the queue.
     (Finding 1 - an empty MemSet replaced a pending tree by the marker - is fixed
     in chain33; a read that returns nothing at an acknowledged root is a violation
-    like any other.) *)
+    like any other.)
+
+    The histories run in child processes of the harness.  When the store takes
+    its process down (a panic in one of the module's goroutines cannot be
+    recovered), the history ends there: the operation in flight carries the
+    reply [OCrashed] ([IIdle] stands for "no operation was in flight").  The
+    model never predicts it and the specification rejects it. *)
 From Coq Require Import List ZArith NArith Bool.
 From C33 Require Import Lib.Harness C01.Keys C01.Model C01.Spec C01.Store C04.Model C04.Spec.
 Import ListNotations.
@@ -31,13 +37,15 @@ Inductive iop :=
 | IGet (r : N)                               (* Store.Get of every key of the table *)
 | IRestart                                   (* close and reopen the database *)
 | IForeign (kvs : list (N * N))              (* root of these writes on an unrelated store *)
-| ICount.                                    (* number of entries of the database *)
+| ICount                                     (* number of entries of the database *)
+| IIdle.                                     (* nothing (only recorded with [OCrashed]) *)
 
 Inductive iout :=
 | ORoot (t : N)
 | OVals (vs : list N)                        (* 0 = nil or empty, i+1 = value i of the table *)
 | ONotExist | ONotFound | OPanic | OOther | OUnit
-| ONum (n : N).
+| ONum (n : N)
+| OCrashed.                                  (* the process of the store died during the operation *)
 
 Inductive case :=
 | CSeq (pfx q : bool) (keys vals : list bytes) (steps : list (iop * iout))
@@ -101,6 +109,7 @@ Definition mstep0 (keys vals : list bytes) (e : env) (s : st) (o : iop) : option
   | IRestart => Some (step s ORestart)
   | IForeign kvs => Some (RRoot (foreign_root (kvs_of keys vals kvs)), s)
   | ICount => Some (RUnit, s)                 (* compared separately *)
+  | IIdle => Some (RUnit, s)
   end.
 
 (** through the queue, the reply to a Commit is what base.go makes of it *)
@@ -139,6 +148,7 @@ Definition to_sop (keys vals : list bytes) (o : iop) : sop :=
   | IRestart => SRestart
   | IForeign kvs => SForeign (kvs_of keys vals kvs)
   | ICount => SOther
+  | IIdle => SOther
   end.
 
 Definition val_of (vals : list bytes) (c : N) : option bytes :=
@@ -152,6 +162,7 @@ Definition to_sout (vals : list bytes) (io : iout) : sout :=
   | ORoot t => SRoot t
   | OVals vs => SVals (map (val_of vals) vs)
   | ONotFound => SNotFound
+  | OCrashed => SCrash
   | _ => SFail
   end.
 
@@ -224,12 +235,39 @@ Fixpoint lin (fuel : nat) (keys vals : list bytes) (e : env) (s : st) (rem : lis
     end
   end.
 
+Definition crashed (io : iout) : bool :=
+  match io with OCrashed => true | _ => false end.
+
 Definition check_case (c : case) : verdict :=
   match c with
   | CSeq pfx q keys vals steps => seq_verdict pfx q keys vals steps
   | CConc pfx keys vals steps =>
+      if existsb (fun c => crashed (snd (fst c))) steps
+      then (false, false, 0%N)         (* the store died under one of the requests in flight *)
+      else
       match lin (length steps) keys vals env0 (st0 pfx) steps with
       | Some order => seq_verdict pfx true keys vals order
       | None => (false, true, 0%N)     (* no order explains the replies: the correspondence is broken *)
       end
   end.
+
+(** the new reply class is classified as intended: never the model's answer, never allowed *)
+Example crashed_commit_rejected :
+  check_case (CSeq false true [[1%N]] [[2%N]]
+                [(IMemSet 0 [(0%N, 0%N)], ORoot 2); (IGet 2, OVals [1%N]); (ICommit 2, OCrashed)])
+  = (false, false, 0%N).
+Proof. vm_compute. reflexivity. Qed.
+
+Example crashed_idle_rejected :
+  check_case (CSeq false false [[1%N]] [[2%N]] [(IIdle, OCrashed)]) = (false, false, 0%N).
+Proof. vm_compute. reflexivity. Qed.
+
+Example idle_alone_fine :
+  check_case (CSeq false false [[1%N]] [[2%N]] [(IIdle, OUnit)]) = (true, true, 0%N).
+Proof. vm_compute. reflexivity. Qed.
+
+Example crashed_concurrent_rejected :
+  check_case (CConc false [[1%N]] [[2%N]]
+                [(IMemSet 0 [(0%N, 0%N)], ORoot 2, (1%N, 2%N)); (ICommit 2, OCrashed, (3%N, 0%N))])
+  = (false, false, 0%N).
+Proof. vm_compute. reflexivity. Qed.
